@@ -1135,11 +1135,14 @@ class StochasticTMLE:
             if conditional is None:
                 df[self.exposure] = np.random.binomial(n=1, p=p, size=df.shape[0])
             else:
-                df[self.exposure] = np.nan
+                # conditions are evaluated on the observed data (they may refer to the observed treatment), so the
+                # treatment under the plan is assembled aside and assigned once
+                a_star = np.full(df.shape[0], np.nan)
                 for c, prop in zip(conditional, p):
-                    df[self.exposure] = np.where(eval(c),
-                                                 np.random.binomial(n=1, p=prop, size=df.shape[0]),
-                                                 df[self.exposure])
+                    a_star = np.where(eval(c),
+                                      np.random.binomial(n=1, p=prop, size=df.shape[0]),
+                                      a_star)
+                df[self.exposure] = a_star
 
             # Outcome model under treatment plan
             if self._out_model_custom:
